@@ -82,6 +82,7 @@ def make_local_base():
 
 Dyn = type("Dyn", (RuntimeError,), {"__module__": __name__})            # resolvable
 DynHidden = type("DynHidden", (RuntimeError,), {"__module__": "nowhere.module"})  # module not loaded
+DynNoModule = type("DynNoModule", (Exception,), {"__module__": None})              # a class that has no module at all
 DynShadow = type("ModErr", (LookupError,), {"__module__": __name__})      # name resolves to a different class
 
 
